@@ -6,7 +6,6 @@ import (
 	"sort"
 	"strings"
 	"sync"
-	"sync/atomic"
 	"time"
 
 	"github.com/osteele/liquid"
@@ -26,8 +25,8 @@ func init() {
 		Race:          true,
 		Shards:        4,
 		NoHangMonitor: true,
-		Rule: "one configured engine per round; templates = one per registered standard tag and per registered standard filter (enumerated from the engine's tables at run time) plus generated programs; in every round N in {2,4,8,16,32} goroutines render THE SAME parsed *Template objects, parse the same sources and register templates with ParseTemplateAndCache concurrently, sharing one set of binding values (incl. Drops by value and by pointer, Drops pre-wrapped with values.ValueOf that are still unresolved when each burst starts, typed slices, maps, IterationKeyedMap, MapSlice), under GOMAXPROCS in {1,2,4,16}, with schedule perturbation through verifhook.Yield and through yielding callbacks (Drop.ToLiquid, io.Writer, a registered tag); built with -race. Each operation is recorded at the client boundary (goroutine, kind, template, call/return timestamp from one monotonic clock, result hash). Oracle: no race report whose stack contains the repository; every concurrent result equals the single-threaded result computed before and after. Interleaving coverage = distinct overlapping (template_i, template_j) pairs, including a template overlapping itself. Non-trivial = an operation that overlapped another operation in time; distinct = distinct overlapping pairs.",
-		Exhaustive: func(string) bool { return false },
+		Rule:          "one configured engine per round; templates = one per registered standard tag and per registered standard filter (enumerated from the engine's tables at run time) plus generated programs; in every round N in {2,4,8,16,32} goroutines render THE SAME parsed *Template objects, parse the same sources and register templates with ParseTemplateAndCache concurrently, sharing one set of binding values (incl. Drops by value and by pointer, Drops pre-wrapped with values.ValueOf that are still unresolved when each burst starts, typed slices, maps, IterationKeyedMap, MapSlice), under GOMAXPROCS in {1,2,4,16}, with schedule perturbation through verifhook.Yield and through yielding callbacks (Drop.ToLiquid, io.Writer, a registered tag); built with -race. Each operation is recorded at the client boundary (goroutine, kind, template, call/return timestamp from one monotonic clock, result hash). Oracle: no race report whose stack contains the repository; every concurrent result equals the single-threaded result computed before and after (in the first round of every worker process only after: nothing is rendered before the goroutines start, so process-wide lazily built tables are built under contention). Interleaving coverage = distinct overlapping (template_i, template_j) pairs, including a template overlapping itself. Non-trivial = an operation that overlapped another operation in time; distinct = distinct overlapping pairs.",
+		Exhaustive:    func(string) bool { return false },
 		Assumptions: []string{
 			"the sequential specification of every operation is a pure function of its arguments (what C02/C03 establish), so a history is linearizable iff every operation returned the sequential value: an O(n) check, no search",
 			"the static 'for all schedules' clause of the quantifier is outside runtime monitoring and is not attempted; every standard tag and filter closure is instead executed by several goroutines at once under the race detector",
@@ -92,7 +91,7 @@ var c04TagTemplates = map[string]string{
 	"xbfile":     "{% xbfile inc3.html %}ignored{% endxbfile %}",
 	"xbfail":     "{% xbfail x %}{% endxbfail %}",
 	"xbplain":    "{% xbplain %}{{ n }}{% endxbplain %}",
-	"include":  "{% include 'inc.html' %}|{% for i in (1..2) %}{% include 'inc2.html' %}{% endfor %}{% include 'inc3.html' %}",
+	"include":    "{% include 'inc.html' %}|{% for i in (1..2) %}{% include 'inc2.html' %}{% endfor %}{% include 'inc3.html' %}",
 }
 
 func c04FilterTemplate(name string) string {
@@ -130,13 +129,13 @@ func c04FilterTemplate(name string) string {
 }
 
 type c04op struct {
-	g       int
-	kind    string
-	tpl     int
-	call    int64
-	ret     int64
-	hash    uint64
-	brief   string
+	g     int
+	kind  string
+	tpl   int
+	call  int64
+	ret   int64
+	hash  uint64
+	brief string
 }
 
 func runC04(c *core.Ctx) {
@@ -148,6 +147,33 @@ func runC04(c *core.Ctx) {
 		c04Round(c, round)
 	}
 }
+
+// c04barrier is a reusable barrier for n goroutines.
+type c04barrier struct {
+	mu    sync.Mutex
+	cond  *sync.Cond
+	n, in int
+	phase int
+}
+
+func (b *c04barrier) wait() {
+	b.mu.Lock()
+	ph := b.phase
+	b.in++
+	if b.in == b.n {
+		b.in = 0
+		b.phase++
+		b.cond.Broadcast()
+	} else {
+		for ph == b.phase {
+			b.cond.Wait()
+		}
+	}
+	b.mu.Unlock()
+}
+
+// c04FirstRound: true until the first round of this worker process has started.
+var c04FirstRound = true
 
 func c04Round(c *core.Ctx, round int) {
 	r := c.Rand(round)
@@ -169,7 +195,8 @@ func c04Round(c *core.Ctx, round int) {
 	// a second pair of engines configured through Delims with empty strings (= defaults) and custom tag delimiters
 	ed, edTwin := mkEngine().Delims("", "", "<%", "%>"), mkEngine().Delims("", "", "<%", "%>")
 	edSrc := "a {{ n }} <% if t %>yes<%- else -%>no<% endif %> {{ s | upcase }}<% for i in arr %>{{ i }},<% endfor %>"
-	edWant := core.Run(edTwin, edSrc, nil)
+	// (what the twin engines give is computed after the concurrent phase in a cold round, see below)
+	var edGot, dynGot []core.Res
 	// configuration phase is over; from here on the engine is only used
 	filters, tags, blocks := engineNames(e)
 	if len(filters) == 0 { // the tables could not be read by reflection (renamed fields): use the static lists
@@ -250,31 +277,39 @@ func c04Round(c *core.Ctx, round int) {
 	if !c.Begin(fmt.Sprintf("round %d: %d templates", round, len(srcs))) {
 		return
 	}
-	// the include template must really include (a wrong path would only ever exercise the error path)
-	if probe := core.RunAt(twin, c04TagTemplates["include"], "c04/top.html", 1, b); !probe.OK() {
-		c.Violate("harness|include-template-fails", "the include template of the concurrency workload does not render on the twin engine", map[string]any{"observed": probe.Brief()})
-	}
-	// ---- sequential baseline (before) ----------------------------------------------------------
+	// ---- sequential baseline ----------------------------------------------------------------------
+	// In the first round of every worker process nothing at all is rendered before the goroutines start (cold): whatever the
+	// library builds lazily for the whole process (tables per type, per parameter type, per layout) is then built under
+	// contention; the baseline is computed afterwards. In later rounds it is computed before, as a twin-engine reference.
+	cold := c04FirstRound
+	c04FirstRound = false
 	tpls := make([]*liquid.Template, len(srcs))
 	parseBase := make([]core.Res, len(srcs))
 	base := make([]core.Res, len(srcs))
 	for i, s := range srcs {
-		t, pr := core.Parse(twin, s, "c04/top.html", 1)
-		parseBase[i] = pr
-		if pr.OK() {
-			base[i] = core.Render(t, b)
-			if i%2 == 0 {
-				// half of the templates are parsed on e beforehand (the same *Template is then shared by all goroutines);
-				// the other half is first parsed on e inside the concurrent phase
-				tpls[i], _ = core.Parse(e, s, "c04/top.html", 1)
-			}
-		} else {
-			base[i] = pr
+		if i%2 == 0 {
+			// half of the templates are parsed on e beforehand (the same *Template is then shared by all goroutines);
+			// the other half is first parsed on e inside the concurrent phase
+			tpls[i], _ = core.Parse(e, s, "c04/top.html", 1)
 		}
 	}
+	baseline := func() {
+		for i, s := range srcs {
+			t, pr := core.Parse(twin, s, "c04/top.html", 1)
+			parseBase[i] = pr
+			if pr.OK() {
+				base[i] = core.Render(t, b)
+			} else {
+				base[i] = pr
+			}
+		}
+	}
+	if !cold {
+		baseline()
+	} else {
+		c.Obs("cold_rounds", 1)
+	}
 	dynSrc := "[dyn {{ n }}{% for q in (1..2) %}{{ q }}{% endfor %}]"
-	core.ParseCache(twin, dynSrc, "c04/dyn0.html", 1)
-	dynWant := core.RunAt(twin, "{% include 'dyn0.html' %}|{% include 'inc.html' %}", "c04/top.html", 1, b)
 	verifhook.SetBudget(0)
 	verifhook.SetConcurrent(true) // hooks must not synchronise the goroutines under test (see verifhook)
 	defer verifhook.SetConcurrent(false)
@@ -282,9 +317,18 @@ func c04Round(c *core.Ctx, round int) {
 	t0 := time.Now()
 	var opsMu sync.Mutex
 	var ops []c04op
-	var nops atomic.Int64
+	// operations are counted per goroutine and added up when the goroutine is done: a shared atomic counter touched after
+	// every operation would order the goroutines for the race detector (release/acquire on one variable) and hide races
+	// between an operation of one goroutine and the next operation of another
+	var nops int64
 	configs := []struct{ n, procs int }{{2, 1}, {4, 2}, {8, 4}, {16, 16}, {32, 16}, {4, 16}, {8, 1}}
+	if cold {
+		// the first burst of a cold process is the widest one: the race detector remembers only the last few accesses to a
+		// memory cell, so a first-use write is only caught by reads that come right after it, on other processors
+		configs = []struct{ n, procs int }{{16, 16}, {32, 16}, {2, 1}, {4, 2}, {8, 4}, {4, 16}, {8, 1}}
+	}
 	reps := c.Pick(2, 3)
+	coldDone := false
 	for _, cfg := range configs {
 		for rep := 0; rep < reps; rep++ {
 			old := runtime.GOMAXPROCS(cfg.procs)
@@ -292,6 +336,11 @@ func c04Round(c *core.Ctx, round int) {
 			verifhook.SetYield([]uint32{0, 64, 512}[(rep+cfg.n)%3])
 			var wg sync.WaitGroup
 			start := make(chan struct{})
+			var lockstep *c04barrier
+			if cold && !coldDone {
+				lockstep, coldDone = &c04barrier{n: cfg.n}, true
+				lockstep.cond = sync.NewCond(&lockstep.mu)
+			}
 			for g := 0; g < cfg.n; g++ {
 				wg.Add(1)
 				go func(g int) {
@@ -300,12 +349,10 @@ func c04Round(c *core.Ctx, round int) {
 					local := make([]c04op, 0, 256)
 					<-start
 					if round%2 == 0 || g%2 == 0 { // the Delims-configured engine is first used here, by several goroutines at once
-						if got := core.Run(ed, edSrc, nil); !got.Same(edWant) {
-							opsMu.Lock()
-							c.Violate("concurrent-differs-from-sequential|custom-delims", "a concurrent parse+render on an engine configured with Delims returned something else than when run alone",
-								map[string]any{"source": edSrc, "sequential": edWant.Brief(), "concurrent": got.Brief()})
-							opsMu.Unlock()
-						}
+						got := core.Run(ed, edSrc, nil)
+						opsMu.Lock()
+						edGot = append(edGot, got)
+						opsMu.Unlock()
 					}
 					// registering templates for include is parsing too: several goroutines register (the same content under a few
 					// paths) while others render includes
@@ -314,16 +361,23 @@ func c04Round(c *core.Ctx, round int) {
 						opsMu.Lock()
 						c.Violate("concurrent-differs-from-sequential|ParseTemplateAndCache", "registering a template concurrently failed", map[string]any{"observed": pr.Brief()})
 						opsMu.Unlock()
-					} else if got := core.RunAt(e, "{% include '"+dyn+"' %}|{% include 'inc.html' %}", "c04/top.html", 1, b); !got.Same(dynWant) {
+					} else {
+						got := core.RunAt(e, "{% include '"+dyn+"' %}|{% include 'inc.html' %}", "c04/top.html", 1, b)
 						opsMu.Lock()
-						c.Violate("concurrent-differs-from-sequential|include-of-registered", "an include of a template registered concurrently returned something else than when run alone",
-							map[string]any{"sequential": dynWant.Brief(), "concurrent": got.Brief()})
+						dynGot = append(dynGot, got)
 						opsMu.Unlock()
 					}
-					nops.Add(2)
+					mine := int64(2)
 					// every goroutine walks the templates in the same rotation so that the same *Template overlaps itself
 					for k := 0; k < len(srcs); k++ {
 						i := (k + g/4) % len(srcs)
+						if lockstep != nil {
+							// cold burst: every goroutine renders the same template at the same moment. What the library builds on
+							// first use is then written by one goroutine while the others read it; the barrier orders the goroutines
+							// only between steps, never within one.
+							i = k
+							lockstep.wait()
+						}
 						kind := gr.Intn(6)
 						op := c04op{g: g, tpl: i, call: int64(time.Since(t0))}
 						var res core.Res
@@ -363,10 +417,11 @@ func c04Round(c *core.Ctx, round int) {
 						op.brief = res.Brief()
 						op.hash = core.HashString(op.brief)
 						local = append(local, op)
-						nops.Add(1)
+						mine++
 					}
 					opsMu.Lock()
 					ops = append(ops, local...)
+					nops += mine
 					opsMu.Unlock()
 				}(g)
 			}
@@ -376,8 +431,33 @@ func c04Round(c *core.Ctx, round int) {
 		}
 	}
 	verifhook.SetYield(0)
-	c.Eval(int(nops.Load()))
-	c.Obs("concurrent_operations", nops.Load())
+	if cold {
+		baseline()
+	}
+	// the single-threaded answers of the twin engines
+	if probe := core.RunAt(twin, c04TagTemplates["include"], "c04/top.html", 1, b); !probe.OK() {
+		// the include template must really include (a wrong path would only ever exercise the error path)
+		c.Violate("harness|include-template-fails", "the include template of the concurrency workload does not render on the twin engine", map[string]any{"observed": probe.Brief()})
+	}
+	edWant := core.Run(edTwin, edSrc, nil)
+	for _, got := range edGot {
+		if !got.Same(edWant) {
+			c.Violate("concurrent-differs-from-sequential|custom-delims", "a concurrent parse+render on an engine configured with Delims returned something else than when run alone",
+				map[string]any{"source": edSrc, "sequential": edWant.Brief(), "concurrent": got.Brief()})
+			break
+		}
+	}
+	core.ParseCache(twin, dynSrc, "c04/dyn0.html", 1)
+	dynWant := core.RunAt(twin, "{% include 'dyn0.html' %}|{% include 'inc.html' %}", "c04/top.html", 1, b)
+	for _, got := range dynGot {
+		if !got.Same(dynWant) {
+			c.Violate("concurrent-differs-from-sequential|include-of-registered", "an include of a template registered concurrently returned something else than when run alone",
+				map[string]any{"sequential": dynWant.Brief(), "concurrent": got.Brief()})
+			break
+		}
+	}
+	c.Eval(int(nops))
+	c.Obs("concurrent_operations", nops)
 	// ---- sequential baseline (after) ------------------------------------------------------------------
 	for i, s := range srcs {
 		var again core.Res
